@@ -240,9 +240,112 @@ func (p *Program) Func(pkgPath, name string) *types.Func {
 	return fn
 }
 
-// FuncDecl is Func + Decl.
+// FuncDecl is Func + Decl. A method of the inventory that no longer exists resolves to the
+// function it was turned into (see methodAlias).
 func (p *Program) FuncDecl(pkgPath, name string) *ast.FuncDecl {
-	return p.Decl(p.Func(pkgPath, name))
+	if fd := p.Decl(p.Func(pkgPath, name)); fd != nil {
+		return fd
+	}
+	return p.methodAlias(pkgPath, name)
+}
+
+// methodAlias: "T.m" is in the inventory but not in the tree, and exactly one function outside the
+// inventory has m's parameters (after some leading ones that stand for the receiver or the fields
+// it used), m's results and a name that contains m's name: the method was turned into a
+// package-level function. Rules that analyse the body of T.m analyse that function.
+func (p *Program) methodAlias(pkgPath, name string) *ast.FuncDecl {
+	b := p.opt.Baseline
+	pkg := p.ByPath[pkgPath]
+	if b == nil || pkg == nil {
+		return nil
+	}
+	dot := strings.Index(name, ".")
+	if dot < 0 {
+		return nil
+	}
+	want, ok := b.Decls["func"][pkgPath+"."+name]
+	if !ok {
+		return nil
+	}
+	want, _ = splitOrd(want)
+	wantParams, wantResults := splitSig(want)
+	var found *ast.FuncDecl
+	n := 0
+	for _, d := range p.declObjects() {
+		if d.Kind != "func" || !strings.HasPrefix(d.Name, pkgPath+".") || b.HasFunc(d.Name) {
+			continue
+		}
+		short := d.Name[len(pkgPath)+1:]
+		if strings.Contains(short, ".") || !wordsInOrder(name[dot+1:], short) {
+			continue
+		}
+		sig, _ := splitOrd(d.Type)
+		params, results := splitSig(sig)
+		if results != wantResults || len(params) < len(wantParams) {
+			continue
+		}
+		match := true
+		for i := range wantParams {
+			if params[len(params)-len(wantParams)+i] != wantParams[i] {
+				match = false
+			}
+		}
+		if !match {
+			continue
+		}
+		if f, ok := d.obj.(*types.Func); ok {
+			if fd := p.Decl(f); fd != nil {
+				found = fd
+				n++
+			}
+		}
+	}
+	if n == 1 {
+		return found
+	}
+	return nil
+}
+
+// splitSig splits "func(a, b) r" into parameter types and the result part.
+func splitSig(sig string) ([]string, string) {
+	sig = strings.TrimPrefix(sig, "func")
+	depth, end := 0, -1
+	for i, c := range sig {
+		if c == '(' {
+			depth++
+		}
+		if c == ')' {
+			depth--
+			if depth == 0 {
+				end = i
+				break
+			}
+		}
+	}
+	if end < 0 {
+		return nil, sig
+	}
+	inner := sig[1:end]
+	var params []string
+	depth = 0
+	start := 0
+	for i, c := range inner {
+		switch c {
+		case '(', '[', '{':
+			depth++
+		case ')', ']', '}':
+			depth--
+		case ',':
+			if depth == 0 {
+				params = append(params, strings.TrimSpace(inner[start:i]))
+				start = i + 1
+			}
+		}
+	}
+	if strings.TrimSpace(inner[start:]) != "" {
+		params = append(params, strings.TrimSpace(inner[start:]))
+	}
+	return params, strings.TrimSpace(sig[end+1:])
 }
 
 // Named looks up a named type.
@@ -340,4 +443,37 @@ func (p *Program) SSA() (*ssa.Program, map[string]*ssa.Package) {
 		}
 	})
 	return p.SSAProg, p.ssaPkgs
+}
+
+// wordsInOrder: every camel-case word of want occurs in have, in order (writeResponseHeader in
+// connectWriteUnaryResponseHeader).
+func wordsInOrder(want, have string) bool {
+	var words []string
+	cur := ""
+	for _, r := range want {
+		if r >= 'A' && r <= 'Z' && cur != "" {
+			words = append(words, cur)
+			cur = ""
+		}
+		cur += strings.ToLower(string(r))
+	}
+	if cur != "" {
+		words = append(words, cur)
+	}
+	h := strings.ToLower(have)
+	at := 0
+	all := len(words) > 0
+	for _, w := range words {
+		i := strings.Index(h[at:], w)
+		if i < 0 {
+			all = false
+			break
+		}
+		at += i + len(w)
+	}
+	if all {
+		return true
+	}
+	// or: the first word (at least four letters) is shared (chainWith -> chainInterceptors)
+	return len(words) > 0 && len(words[0]) >= 4 && strings.Contains(h, words[0])
 }
